@@ -42,7 +42,7 @@ def correspondence(ctx):
         ctx.count(f"probe-stats={len(sts)}")
         ctx.case([core.tolist(sc["U"]), core.tolist(sc["z"]), core.tolist([s["f"] for s in sc["sts"]])], nontrivial=sc["C"] * sc["D"] >= 2,
                  sample={"C": sc["C"], "D": sc["D"], "rU": sc["rU"], "rV": sc["rV"], "probe_stats": len(sts), "score_model": core.dec(o["score"])})
-        inp = {k: sc[k] for k in ("C", "D", "rU", "rV", "jfa", "w", "m", "v", "U", "V", "Dd", "route", "np_ints", "layout", "int_subspaces", "ubm_layout", "sts", "y", "z")}
+        inp = {k: sc[k] for k in ("C", "D", "rU", "rV", "jfa", "w", "m", "v", "U", "V", "Dd", "route", "np_ints", "layout", "int_subspaces", "ubm_layout", "ubm_int_means", "sts", "y", "z")}
         x = core.impl(lambda: np.asarray(mach.estimate_x(sts), dtype=float))
         mx = fagen.dec1(o["x"], sc["rU"])
         if isinstance(x, core.ImplError) or not core.close(mx, x, 1e-8, 1e-10):
@@ -189,7 +189,7 @@ def search(ctx):
             f = oracle_entry(sc, arrays)
         if f and f["sig"] not in seen:
             seen.add(f["sig"])
-            f["input"] = {**{k: sc[k] for k in ("C", "D", "rU", "rV", "jfa", "w", "m", "v", "U", "V", "Dd", "route", "np_ints", "layout", "int_subspaces", "ubm_layout", "sts", "y", "z")}, "arrays": arrays}
+            f["input"] = {**{k: sc[k] for k in ("C", "D", "rU", "rV", "jfa", "w", "m", "v", "U", "V", "Dd", "route", "np_ints", "layout", "int_subspaces", "ubm_layout", "ubm_int_means", "sts", "y", "z")}, "arrays": arrays}
             fails.append(f)
     return fails
 
